@@ -58,11 +58,14 @@ func BuildCLI(harnessDir, out string) error {
 
 // RunResult of one CLI invocation.
 type RunResult struct {
-	Exit     int
-	Stdout   string
-	Stderr   string
-	TimedOut bool
-	Dur      time.Duration
+	// HarnessErr: the command could not be run or waited for properly (not an
+	// exit status of the program): always a problem of the machine
+	HarnessErr string
+	Exit       int
+	Stdout     string
+	Stderr     string
+	TimedOut   bool
+	Dur        time.Duration
 }
 
 // Failed reports whether the CLI signalled failure (non-zero exit).
@@ -73,19 +76,33 @@ func (r RunResult) Failed() bool { return r.Exit != 0 || r.TimedOut }
 // one (killed, could not start), or one that mentions resource exhaustion, is
 // a problem of the machine (disk full, out of memory), not of the property.
 func (r RunResult) EnvironmentFailure() bool {
+	if r.HarnessErr != "" {
+		return true
+	}
 	if !r.Failed() || r.TimedOut {
 		return false
 	}
-	for _, k := range []string{"no space left on device", "cannot allocate memory", "too many open files", "disk quota exceeded", "resource temporarily unavailable"} {
+	for _, k := range []string{"no space left on device", "cannot allocate memory", "too many open files", "disk quota exceeded", "resource temporarily unavailable", "out of memory"} {
 		if strings.Contains(r.Stderr, k) {
 			return true
 		}
 	}
-	return !strings.Contains(r.Stderr, "panic:")
+	return !strings.Contains(r.Stderr, "panic:") && !strings.Contains(r.Stderr, "fatal error:")
 }
 
 // Run executes a command with a deadline.
 func Run(timeout time.Duration, dir string, stdin []byte, name string, args ...string) RunResult {
+	r := runOnce(timeout, dir, stdin, name, args...)
+	for try := 0; try < 2 && r.HarnessErr != ""; try++ {
+		// the command could not be started or waited for (overloaded machine);
+		// everything the harness runs this way is repeatable
+		time.Sleep(time.Second)
+		r = runOnce(timeout, dir, stdin, name, args...)
+	}
+	return r
+}
+
+func runOnce(timeout time.Duration, dir string, stdin []byte, name string, args ...string) RunResult {
 	ctx, cancel := context.WithTimeout(context.Background(), timeout)
 	defer cancel()
 	cmd := exec.CommandContext(ctx, name, args...)
@@ -96,7 +113,7 @@ func Run(timeout time.Duration, dir string, stdin []byte, name string, args ...s
 	if stdin != nil {
 		cmd.Stdin = bytes.NewReader(stdin)
 	}
-	cmd.WaitDelay = 2 * time.Second
+	cmd.WaitDelay = 15 * time.Second
 	start := time.Now()
 	err := cmd.Run()
 	r := RunResult{Stdout: so.String(), Stderr: se.String(), Dur: time.Since(start)}
@@ -113,6 +130,7 @@ func Run(timeout time.Duration, dir string, stdin []byte, name string, args ...s
 			}
 		} else {
 			r.Exit = 254
+			r.HarnessErr = err.Error()
 			r.Stderr += "\n" + err.Error()
 		}
 	}
